@@ -942,31 +942,18 @@ Qed.
 Definition restrict_reg (t : bset) (r : reg) : reg := R (bs_inter (r_set r) t) (r_forced r) (r_infos r).
 Definition restrict_kind (t : bset) (k : kind) : kind := set_cpuset k (bs_inter (k_cpuset k) t).
 
-Lemma last_in {A} (l : list A) d : In (last l d) (d :: l).
-Proof.
-  assert (G : forall l : list A, l <> [] -> In (last l d) l).
-  { induction l0 as [|x l0 IH]; intros Hn; [contradiction|].
-    destruct l0 as [|y l0]; [now left|]. right. apply IH. discriminate. }
-  destruct l as [|x l]; [now left|]. right. apply G. discriminate.
-Qed.
-
 Lemma restrict_loop_spec topo ks :
   fst (restrict_loop topo ks) =
     filter (fun k => negb (bs_is_empty (k_cpuset k))) (map (restrict_kind topo) ks) /\
-  Forall (fun s => exists k, In k ks /\ k_infos s = k_infos k /\ k_arr s = k_arr k) (snd (restrict_loop topo ks)) /\
+  Forall (fun s => s = zero_slot) (snd (restrict_loop topo ks)) /\
   (length (fst (restrict_loop topo ks)) + length (snd (restrict_loop topo ks)) = length ks)%nat.
 Proof.
   induction ks as [|k rest [IH1 [IH2 IH3]]]; simpl; [repeat split; constructor|].
-  destruct (restrict_loop topo rest) as [live stales]. simpl in *.
-  assert (IH2' : Forall (fun s => exists k0, (k = k0 \/ In k0 rest) /\ k_infos s = k_infos k0 /\ k_arr s = k_arr k0) stales).
-  { eapply Forall_impl; [|exact IH2]. intros s [k0 [H1 H2]]. exists k0. auto. }
+  destruct (restrict_loop topo rest) as [live vac]. simpl in *.
   destruct (bs_is_empty (bs_inter (k_cpuset k) topo)) eqn:E; simpl.
   - split; [exact IH1|]. split; [|rewrite app_length; simpl; lia].
-    apply Forall_app. split; [exact IH2'|]. constructor; [|constructor].
-    destruct (last_in rest (set_cpuset k (bs_inter (k_cpuset k) topo))) as [H|H].
-    + exists k. rewrite <- H. simpl. auto.
-    + exists (last rest (set_cpuset k (bs_inter (k_cpuset k) topo))). auto.
-  - split; [now rewrite IH1|]. split; [exact IH2'|lia].
+    apply Forall_app. split; [exact IH2|]. constructor; [reflexivity|constructor].
+  - split; [now rewrite IH1|]. split; [exact IH2|lia].
 Qed.
 
 Lemma registered_restrict t regs p :
@@ -1035,8 +1022,7 @@ Proof.
     - intros p. rewrite S1, cnt_restrict, registered_restrict, Ip.
       destruct (mem p t), (registered regs p); reflexivity.
     - apply Forall_app. split; [|exact It]. eapply Forall_impl; [|exact S2].
-      intros s [k [H1 [H2 H3]]]. unfold slot_wf. rewrite H2, H3. rewrite Forall_forall in Ik.
-      apply (ko_arr _ _ (Ik k H1)). }
+      intros s ->. intros _. reflexivity. }
   destruct stales; [exact I'|].
   apply (Inv_core_perm _ (St live (k :: stales ++ tail st))); [exact I'|apply rank_kinds_core].
 Qed.
@@ -1216,20 +1202,7 @@ Proof.
     injection Es as ->. revert E. apply xml_import_no_oob.
 Qed.
 
-(* the stale-slot error needs a registration that follows a restrict with no
-   dup / XML reload in between *)
-Fixpoint stale_free (dirty : bool) (h : list (option str * op)) : bool :=
-  match h with
-  | [] => true
-  | (_, o) :: r =>
-    match o with
-    | OpRegister _ _ _ _ => negb dirty && stale_free false r
-    | OpRestrict _ => stale_free true r
-    | OpRank => stale_free dirty r
-    | OpDup | OpXml => stale_free false r
-    end
-  end.
-
+(* the unused slots never hold an infos array pointer: no history reaches the stale-slot error *)
 Lemma xml_import_clean : forall ks st, Forall clean (tail st) ->
   xml_import st ks <> inl F_STALE /\ (forall st', xml_import st ks = inr st' -> Forall clean (tail st')).
 Proof.
@@ -1242,26 +1215,51 @@ Proof.
     + split; [congruence|discriminate].
 Qed.
 
-Lemma run_stale_free : forall h st dirty,
-  (dirty = false -> Forall clean (tail st)) -> stale_free dirty h = true -> run st h <> Fatal F_STALE.
+Lemma restrict_state_clean env st t : Forall clean (tail st) -> Forall clean (tail (restrict_state env st t)).
 Proof.
-  induction h as [|[env o] h IH]; intros st dirty Hc Hs; simpl in *; [discriminate|].
-  destruct o; simpl.
-  - apply andb_true_iff in Hs. destruct Hs as [Hd Hs]. apply negb_true_iff in Hd. specialize (Hc Hd).
-    unfold pub_register. destruct (negb _); [apply (IH st false); auto|].
-    destruct cs as [s|]; [|apply (IH st false); auto].
-    destruct (bs_is_empty s); [apply (IH st false); auto|].
-    destruct (internal_register_clean st s (if forced <? 0 then UNKNOWN else forced) infos OVERWRITE Hc) as [C1 C2].
-    destruct (internal_register st s _ infos OVERWRITE) eqn:E.
-    + apply (IH _ false); [|exact Hs]. intros _. simpl. now apply C2.
-    + apply (IH st false); auto.
-    + congruence.
-  - apply (IH _ true); [discriminate|exact Hs].
-  - apply (IH _ dirty); [|exact Hs]. exact Hc.
-  - apply (IH _ false); [|exact Hs]. intros _. constructor.
-  - unfold xml_reload. destruct (xml_import_clean (kinds st) init_state) as [X1 X2]; [constructor|].
-    destruct (xml_import init_state (kinds st)) eqn:E; [congruence|].
-    apply (IH _ false); [|exact Hs]. intros _. simpl. now apply X2.
+  intros Hc. unfold restrict_state.
+  destruct (restrict_loop_spec t (kinds st)) as [_ [S2 _]].
+  destruct (restrict_loop t (kinds st)) as [live vac]. simpl in S2.
+  assert (H : Forall clean (vac ++ tail st)).
+  { apply Forall_app. split; [|exact Hc]. eapply Forall_impl; [|exact S2]. intros s ->. reflexivity. }
+  destruct vac; exact H.
+Qed.
+
+Lemma step_clean env st o st' rc :
+  Forall clean (tail st) -> step env st o = Fine st' rc -> Forall clean (tail st').
+Proof.
+  intros Hc H. destruct o; simpl in H.
+  - unfold pub_register in H. destruct (negb _); [injection H as <- _; exact Hc|].
+    destruct cs as [s|]; [|injection H as <- _; exact Hc].
+    destruct (bs_is_empty s); [injection H as <- _; exact Hc|].
+    destruct (internal_register_clean st s (if forced <? 0 then UNKNOWN else forced) infos OVERWRITE Hc) as [_ C2].
+    destruct (internal_register st s _ infos OVERWRITE) eqn:E; [|injection H as <- _; exact Hc|discriminate].
+    injection H as <- _. simpl. now apply C2.
+  - injection H as <- _. now apply restrict_state_clean.
+  - injection H as <- _. exact Hc.
+  - injection H as <- _. constructor.
+  - unfold xml_reload in H. destruct (xml_import_clean (kinds st) init_state) as [_ X2]; [constructor|].
+    destruct (xml_import init_state (kinds st)) eqn:E; [discriminate|].
+    injection H as <- _. simpl. now apply X2.
+Qed.
+
+Lemma step_no_stale env st o : Forall clean (tail st) -> step env st o <> Fatal F_STALE.
+Proof.
+  intros Hc. destruct o; simpl; try discriminate.
+  - unfold pub_register. destruct (negb _); [discriminate|]. destruct cs as [s|]; [|discriminate].
+    destruct (bs_is_empty s); [discriminate|].
+    destruct (internal_register_clean st s (if forced <? 0 then UNKNOWN else forced) infos OVERWRITE Hc) as [C1 _].
+    destruct (internal_register st s _ infos OVERWRITE); try discriminate. congruence.
+  - unfold xml_reload. destruct (xml_import_clean (kinds st) init_state) as [X1 _]; [constructor|].
+    destruct (xml_import init_state (kinds st)); [congruence|discriminate].
+Qed.
+
+Lemma run_safe : forall h st, Forall clean (tail st) -> run st h <> Fatal F_STALE.
+Proof.
+  induction h as [|[env o] h IH]; intros st Hc; simpl; [discriminate|].
+  destruct (step env st o) as [st1 rc1|f] eqn:Es.
+  - apply IH. eapply step_clean; eauto.
+  - intros [= ->]. revert Es. now apply step_no_stale.
 Qed.
 
 (* ------------------------------------------------------------------ *)
@@ -1527,8 +1525,17 @@ Qed.
 Lemma history_inv_init : forall h st rc, run init_state h = Fine st rc -> Inv (ghost [] h) st.
 Proof. intros h st rc H. apply (run_inv_all h [] init_state st rc init_inv H). Qed.
 
-Lemma history_stale_free_init : forall h, stale_free false h = true -> run init_state h <> Fatal F_STALE.
-Proof. intros h H. apply (run_stale_free h init_state false); [intros _; constructor|exact H]. Qed.
+Lemma history_safe_init : forall h, run init_state h <> Fatal F_STALE.
+Proof. intros h. apply run_safe. constructor. Qed.
+
+(* every history ends in a state satisfying the invariant, unless it reaches 2^29 kinds *)
+Lemma history_total_init : forall h,
+  run init_state h = Fatal F_UB \/ exists st rc, run init_state h = Fine st rc /\ Inv (ghost [] h) st.
+Proof.
+  intros h. destruct (run init_state h) as [st rc|f] eqn:E.
+  - right. exists st, rc. split; [reflexivity|]. now apply (history_inv_init h st rc).
+  - destruct f; [exfalso; revert E; apply run_no_oob|exfalso; revert E; apply history_safe_init|now left].
+Qed.
 
 Lemma history_no_ub_init : forall h, no_xml h -> (length h <= 29)%nat -> run init_state h <> Fatal F_UB.
 Proof.
